@@ -11,7 +11,7 @@ CONSTANTS
   VNames = {"a"}
   TNames = {"int64"}
   DefVals = {1}
-  SetVals = {2}
+  SetVals = {2, 5}
   TypeVals = {1}
   PathNames = {"a"}
   Emit = TRUE
